@@ -73,7 +73,9 @@ Section Compile.
     | None => eval_condsC (q_conds q) []
                 (fun b resume => bind_allC (q_sel q) b (fun b' r => CYield (row (q_sel q) b') r) resume) CEnd
     | Some exc =>
-        CForget (eval_condsC (q_conds q) []
+        (* krrood 23d12cd: the selector also clears its _conclusion_ set when its generator is first advanced, so what an
+           iterator abandoned at a row left there does not leak into this evaluation *)
+        CForget (CConclClear (eval_condsC (q_conds q) []
           (fun b resume =>
              let tag := if forallb (sat_atom A b) exc then 1 else 0 in
              let key := row (q_sel q) b in
@@ -82,7 +84,7 @@ Section Compile.
                             | [] => CConclClear resume
                             | [t] => CYield (t :: key) (CConclClear resume)
                             | _ => CYield ((-5) :: key) (CConclClear resume)
-                            end)) CEnd)
+                            end)) CEnd))
     end.
 End Compile.
 
